@@ -86,6 +86,7 @@ type frame struct {
 	nsafety map[string]int
 	name    string
 	skipEnter *ssa.BasicBlock
+	entryAllocRef T
 }
 
 type deferInfo struct {
@@ -262,12 +263,22 @@ func (e *Enc) cover(name string, cond T) {
 
 // ------------------------------------------------------------------ state vars
 
+// immutableKey: a heap field declared immutable (set only by the constructor).
+func (e *Enc) immutableKey(k string) bool {
+	for _, p := range e.L.Contracts.Immutable {
+		if strings.HasPrefix(k, p) && (len(k) == len(p) || k[len(p)] == '.') {
+			return true
+		}
+	}
+	return false
+}
+
 func (e *Enc) getVar(st *State, key, sort string) T {
 	if t, ok := st.vars[key]; ok {
 		return t
 	}
 	e.keySorts[key] = sort
-	if _, hv := st.vars["*havoc*"]; hv {
+	if _, hv := st.vars["*havoc*"]; hv && !e.immutableKey(key) && !strings.HasPrefix(key, "G|") {
 		// an unknown callee ran on this path before the variable was first
 		// touched: it is no longer at its entry version
 		t := e.freshT("hv_"+lastPart(key), sort)
@@ -411,6 +422,10 @@ func (e *Enc) storeTo(p Ptr, t types.Type, v Val) {
 		ts := e.flatten(t, v)
 		for i, l := range ls {
 			key := heapKey(p.Obj, joinLeaf(prefix, l.Name))
+			if e.immutableKey(key) && e.dry == 0 && len(e.frames) > 0 && !strings.Contains(e.frames[0].name, ".New") {
+				// only freshly allocated objects (constructors) may set an immutable field
+				e.oblige("frame", e.frames[0].name+"/frame.immutable."+strings.TrimPrefix(key, "H|"), ule(e.frames[0].entryAllocRef, p.Ref), 0)
+			}
 			h := e.getVar(e.cur, key, heapSort(l.Sort))
 			e.setVarAt(key, p.Ref, store(h, p.Ref, ts[i]))
 		}
@@ -490,7 +505,7 @@ func (e *Enc) storeGlobal(g *ssa.Global, path []int, t types.Type, v Val) {
 // havocAll forgets every heap/memory variable (unknown callee).
 func (e *Enc) havocAll(why string) {
 	for k, t := range e.cur.vars {
-		if strings.HasPrefix(k, "G|") {
+		if strings.HasPrefix(k, "G|") || t.Sort == "" || e.immutableKey(k) {
 			continue
 		}
 		e.cur.vars[k] = e.freshT("hv_"+lastPart(k), t.Sort)
@@ -500,7 +515,7 @@ func (e *Enc) havocAll(why string) {
 		}
 	}
 	for k, srt := range e.keySorts {
-		if _, ok := e.cur.vars[k]; !ok && !strings.HasPrefix(k, "G|") {
+		if _, ok := e.cur.vars[k]; !ok && !strings.HasPrefix(k, "G|") && !e.immutableKey(k) {
 			e.cur.vars[k] = e.freshT("hv_"+lastPart(k), srt)
 		}
 	}
@@ -733,6 +748,7 @@ func (e *Enc) runBody(fn *ssa.Function, args []Val, bind []Val, top bool, con *C
 		}
 	}
 	f.entrySt = e.cur.clone()
+	f.entryAllocRef = e.cur.allocRef
 	if con != nil {
 		e.bindLoops(f, con)
 	}
@@ -1002,7 +1018,7 @@ func (e *Enc) instr(f *frame, b *ssa.BasicBlock, in ssa.Instruction) {
 			f.vals[x] = Ptr{K: pArr, Sl: Sl{Arr: arr, Off: bv64(0), Len: n, Cap: n, Elem: at.Elem()}, Elem: t}
 			return
 		}
-		if x.Heap {
+		if x.Heap && !e.L.privateAlloc(x) {
 			ref := e.newRef()
 			p := Ptr{K: pHeap, Ref: ref, Obj: t, Elem: t}
 			f.vals[x] = p
